@@ -270,6 +270,9 @@ func catalogue(s *servers, keyStore string, now time.Time) []*mechSpec {
 			Overrides: []override{
 				{Name: "method", Cfg: M{"expressions": L{M{"expression": "Request.Method == 'GET'", "message": "not get"}}}, Equiv: true},
 				{Name: "two", Cfg: M{"expressions": L{M{"expression": "Subject.ID != 'mallory'"}, M{"expression": "Request.Method != 'POST'", "message": "post"}}}, Equiv: true},
+				// the catalogue's expression text again: with another message, and without message at another position
+				{Name: "same-text-other-message", Cfg: M{"expressions": L{M{"expression": "Subject.ID == 'alice'", "message": "this rule is for alice only"}}}, Equiv: true},
+				{Name: "same-text-other-position", Cfg: M{"expressions": L{M{"expression": "true"}, M{"expression": "Subject.ID == 'alice'"}}}, Equiv: true},
 				{Name: "empty", Cfg: M{}, Equiv: true, Inert: true},
 			},
 			Inputs: reqInputs},
@@ -286,6 +289,7 @@ func catalogue(s *servers, keyStore string, now time.Time) []*mechSpec {
 			Overrides: []override{
 				{Name: "payload", Cfg: M{"payload": `{"user":"{{ .Subject.ID }}","p":"rule-{{ .Values.a }}"}`}, Equiv: true},
 				{Name: "expressions", Cfg: M{"expressions": L{M{"expression": "Payload.echo.user == 'alice'", "message": "only alice"}}}, Equiv: true},
+				{Name: "same-text-other-message", Cfg: M{"expressions": L{M{"expression": "Payload.echo.user != 'mallory'", "message": "the policy of this rule says no"}}}, Equiv: true},
 				{Name: "fwd", Cfg: M{"forward_response_headers_to_upstream": L{"X-Authz-B"}}, Equiv: true},
 				{Name: "ttl", Cfg: M{"cache_ttl": "2s"}, Equiv: true},
 				{Name: "ttl0", Cfg: M{"cache_ttl": "0s"}, Equiv: true},
